@@ -207,6 +207,18 @@ def rule_diff(ctx):
                 nanpart = parts[1 - pos]
                 fills = [e.a for e in p.calls('fill')]
                 ok = ok and any(T.dotted(f[2][0]) == 'np.nan' for f in fills if f[2])
+            if ok:
+                # the slice has to be able to hold NaN and to exist even when there is no difference at all (size-1 axis): a slice made like
+                # result.take([0]) inherits an integer dtype (ValueError: cannot convert float NaN to integer) and fails on an empty result (IndexError)
+                base = nanpart
+                while base[0] == 'mut':
+                    base = base[1]
+                taken = any(x[0] == 'call' and T.call_name(x) == 'take' and T.call_receiver(x) == RES for x in T.subterms(base))
+                like = base[0] == 'call' and T.dotted(base[1]) in ('np.empty_like', 'np.zeros_like', 'np.ones_like', 'np.full_like') and T.kw(base, 'dtype') is None
+                if taken or like:
+                    ctx.violated('R2', ap, 'NaN slice made like the result', 'the padding slice is built as %s: it inherits the dtype of the differences (integer data: "cannot convert float NaN to '
+                                 'integer") %s' % (T.show(base)[:60], 'and is taken from the result itself, which is empty for a size-1 axis (IndexError)' if taken else ''), node=p.node)
+                    continue
             if not ok:
                 ctx.violated('R2', ap, 'return ' + T.show(v)[:140], '_append_nans(first=%s) must put the NaN slice %s the differences along `axis`'
                              % (first, 'before' if first else 'after'), node=p.node)
@@ -248,8 +260,18 @@ def rule_arg(ctx):
         # direct rule: labels via the reduction's own axis, through the values setter
         res = ('call', ('name', 'apply_along_axis'), (OBJ, const(name)), (('axis', IDX), ('skipna', P_('skipna'))))
         okd = False
+        scalar_case = False
+        labels_of = ('attr', ('sub', ('attr', OBJ, 'axes'), IDX), 'values')
         for p in ret_paths(ev):
             along = [pol for a, pol in p.guards if a == T.mkcmp('is', AXIS, T.CONST_NONE)]
+            # the reduction of a 1-D array along its only axis is a NumPy scalar (apply_along_axis hands non-array results back as they are, C08-R6):
+            # that case has to be told apart and answered with the single label
+            sc = [pol for a, pol in p.guards if T.contains(a, res) and any(x[0] == 'call' and T.dotted(x[1]) in ('np.ndim', 'np.isscalar', 'isinstance', 'np.size', 'hasattr')
+                                                                            for x in T.subterms(a))] + \
+                 [pol for a, pol in p.guards if a[0] == 'cmp' and a[1] == '==' and a[3] == const(1) and a[2] in (('attr', OBJ, 'ndim'), ('attr', SELF, 'ndim'))]
+            if along == [False] and sc and p.value == ('sub', labels_of, res):
+                scalar_case = True
+                continue
             if along == [False]:
                 st = [e for e in p.events if e.kind in ('store_attr', 'store_sub')]
                 want_val = ('sub', ('attr', ('sub', ('attr', OBJ, 'axes'), IDX), 'values'), ('attr', res, 'values'))
@@ -274,8 +296,11 @@ def rule_arg(ctx):
                                  'obj.axes[i]', node=p.node)
                 else:
                     ctx.holds('R3', name + ' flattened: unravel_index + per-axis labels')
-        if okd:
-            ctx.holds('R3', name + ' along axis: labels of the reduced axis through the values setter')
+        if okd and not scalar_case:
+            ctx.violated('R3', fi, name + ' of a 1-d array along its axis', '%s(axis=...) always treats the reduction as a DimArray (`res.values`): for a 1-d array the result of '
+                         'apply_along_axis is a NumPy integer and the call raises AttributeError instead of returning the label of the extremum' % name, node=fi.node)
+        elif okd:
+            ctx.holds('R3', name + ' along axis: labels of the reduced axis through the values setter; scalar result answered with the single label')
     (fa, sa), (fb, sb) = sigs['argmin'], sigs['argmax']
     if sa != sb:
         diff = [x for x in sb if x not in sa][:1] or [x for x in sa if x not in sb][:1]
